@@ -283,7 +283,8 @@ func (u *Unit) declSort(name string) {
 				"(declare-fun time.unix (Time) Int)", "(declare-fun time.nsec (Time) Int)", "(declare-fun time.mk (Int Int) Time)",
 				"(assert (forall ((s Int) (n Int)) (! (=> (and (<= 0 n) (< n 1000000000)) (and (= (time.unix (time.mk s n)) s) (= (time.nsec (time.mk s n)) n))) :pattern ((time.mk s n)))))",
 				"(assert (forall ((t Time)) (! (and (<= 0 (time.nsec t)) (< (time.nsec t) 1000000000)) :pattern ((time.nsec t)))))",
-				"(assert (forall ((t Time)) (! (= (time.mk (time.unix t) (time.nsec t)) t) :pattern ((time.unix t)))))")
+				"(assert (forall ((t Time)) (! (= (time.mk (time.unix t) (time.nsec t)) t) :pattern ((time.unix t)))))",
+				"(define-fun time.ns ((t Time)) Int (+ (* 1000000000 (time.unix t)) (time.nsec t)))")
 		}
 	}
 }
